@@ -28,8 +28,15 @@ def dense_store(rng):
 
 
 def gen_req(rng, evs):
-    shape = rng.choice(["kind", "kinds", "author", "authors", "tag", "tags", "kind+tag", "author+kind", "time", "author+tag"])
+    shape = rng.choice(["kind", "kinds", "author", "authors", "tag", "tags", "kind+tag", "author+kind", "time", "author+tag",
+                        "ids", "ids", "ids+kind"])
     f = {}
+    if shape in ("ids", "ids+kind"):
+        # a lookup of many stored ids with a limit smaller than their number: which ones survive is the property
+        k = rng.randint(2, min(len(evs), 12))
+        f["ids"] = [e["id"] for e in rng.sample(evs, k)] + ([gen.mkid(rng)] if rng.random() < 0.3 else [])
+        if shape == "ids+kind":
+            f["kinds"] = [1]
     if shape in ("kind", "kind+tag", "author+kind"):
         f["kinds"] = [1]
     if shape == "kinds":
@@ -155,8 +162,12 @@ def run_case(report, scen, rng):
         for rec in (scen.ask_kv(dict(f)), scen.ask_sql([dict(f)])):
             oracle(report, scen, rec)
             record(report, rec)
-    for k in range(3):
+    for k in range(4):
         fs = [gen_req(rng, evs), gen_req(rng, evs)]
+        if k == 3:
+            # every filter of the REQ is an id lookup
+            fs = [{"ids": [e["id"] for e in rng.sample(evs, min(len(evs), rng.randint(2, 6)))], "limit": rng.choice([1, 2, 3])}
+                  for _ in range(2)]
         rec = scen.ask_sql(fs)
         oracle(report, scen, rec)
         record(report, rec)
@@ -175,7 +186,7 @@ def run(report, tier, seed):
     scen = qscen.Scenario(report, drv)
     report.coverage["rule"] = (
         "dense stores of 3/8/19/20/21/27 events (max_limit configured as %d) over 2 authors, kinds 1/7, tags t=a/b, "
-        "shared and distinct timestamps x filters of every planner shape x limits 0,1,2,3,5,max-1,max,max+1,10^6,null,"
+        "shared and distinct timestamps x filters of every planner shape (incl. lookups of 2-12 stored ids) x limits 0,1,2,3,5,max-1,max,max+1,10^6,null,"
         "absent; LMDB single plan per filter, SQL single- and two-filter REQs; non-trivial = something was sent or "
         "truncated" % common.MAX_LIMIT)
     report.assumptions += ["Config.max_limit is set to %d by the harness before the storage modules are imported" % common.MAX_LIMIT]
